@@ -117,7 +117,7 @@ theorem allMoves_complete_apply' (basis : Array W) (p : Pos) (wf : WFlite p) (m 
   · exact slide .down t8
   -- any other type byte: "invalid move type"
   exfalso
-  unfold Pos.apply at h
+  unfold Pos.apply dispatch at h
   have e1 : (m.type == Facts.mtPass) = false := by simpa using hnp
   have e2 : (m.type == Facts.mtPlaceFlat) = false := by simpa using t2
   have e3 : (m.type == Facts.mtPlaceStanding) = false := by simpa using t3
